@@ -12,7 +12,7 @@
                                            → ok <len> <fnv> file=… part=… idx=… | err:<E> …
     verify <q 0|1> <now>                   → ok | err:<E>
     save / restore                         → ok                                 (around a damage)
-    dmg del <name> | dmg set <name> <hex|-> | dmg deldat <date> | dmg delidx <date>  → ok
+    dmg del <name> | dmg set <name> <hex|-> | dmg trunc <name> <n> | dmg flip <name> <off> <xor> | dmg deldat <date> | dmg delidx <date>  → ok
 -/
 import ZodbModel.DriverLib
 import ZodbModel.Repozo
@@ -179,6 +179,24 @@ def rzStep (s : DState) (toks : List String) : DState × String :=
     match parseName nm, hexBytes h with
     | some nm, some b => ({ s with repo := setContent nm b s.repo }, "ok")
     | _, _ => (s, "bad-op")
+  | ["dmg", "trunc", nm, n] =>       -- keep the first n bytes
+    match parseName nm, n.toNat? with
+    | some nm, some n =>
+      (match s.repo.files.find? (fun f => f.name = nm) with
+       | some f => ({ s with repo := setContent nm (f.content.take n) s.repo }, "ok")
+       | none => (s, "nofile"))
+    | _, _ => (s, "bad-op")
+  | ["dmg", "flip", nm, off, x] =>   -- xor the byte at offset off with x
+    match parseName nm, off.toNat?, x.toNat? with
+    | some nm, some off, some x =>
+      (match s.repo.files.find? (fun f => f.name = nm) with
+       | some f =>
+         let c := f.content.take off ++ (match f.content.drop off with
+                                         | [] => []
+                                         | b :: t => (b ^^^ x) :: t)
+         ({ s with repo := setContent nm c s.repo }, "ok")
+       | none => (s, "nofile"))
+    | _, _, _ => (s, "bad-op")
   | ["dmg", "deldat", d] =>
     match d.toNat? with
     | some d => ({ s with repo := delDat d s.repo }, "ok")
